@@ -67,6 +67,11 @@ def main():
         sh(["git", "-C", wt, "apply", "-R", "--whitespace=nowarn", patch])
         rc2, o2 = sh(f"go test -vet=off -count=1 {runarg} ./{a.pkg}/ 2>&1 | tail -40", cwd=wt)
         passes_without = ("FAIL" not in o2) and ("ok" in o2)
+        for _ in range(2):  # the package's own tests can flake under load: a deterministic failure fails three times
+            if passes_without:
+                break
+            rc2, o2 = sh(f"go test -vet=off -count=1 {runarg} ./{a.pkg}/ 2>&1 | tail -40", cwd=wt)
+            passes_without = ("FAIL" not in o2) and ("ok" in o2)
         meta["demo_fails_with_change"] = fails_with
         meta["demo_passes_without_change"] = passes_without
         meta["ran"].append(f"go test {runarg} ./{a.pkg}/ with the change: {'FAIL (as required)' if fails_with else 'pass (NOT a demonstration)'}; without: {'pass' if passes_without else 'FAIL'}")
